@@ -848,8 +848,12 @@ func secretConfigDecoderHook(from, to reflect.Type, data interface{}) (interface
 		if v, ok := data.(map[string]interface{}); ok {
 			if ext, ok := v[consts.Extensions].(map[string]interface{}); ok {
 				if val, ok := ext[types.SecretConfigXValue].(string); ok {
-					// Return a map with the Content field populated
-					v["Content"] = val
+					// the value was resolved from `environment`: it does not outlive that attribute
+					// (an override file can reset it and give the resource another source)
+					if env, _ := v["environment"].(string); env != "" {
+						// Return a map with the Content field populated
+						v["Content"] = val
+					}
 					delete(ext, types.SecretConfigXValue)
 
 					if len(ext) == 0 {
